@@ -11,45 +11,47 @@ from props.base import to_request, corpus_for  # noqa: F401
 ID = 'C03'
 LEAN_MODULES = ['PybtexModel.Props.C03']
 THEOREMS = {
-    'C03_builtin_plus': 'a b + pushes a+b; short stack -> BibTeXError(pop from empty stack); non-integer operand -> TypeError (internal), never a default',
-    'C03_builtin_minus': 'a b - pushes a-b (negative results kept); short stack / ill-typed operands are errors',
-    'C03_builtin_concat': 'x y * pushes the concatenation; a missing field is the empty string; short stack / ill-typed operands are errors',
+    'C03_builtin_short_stack': 'every built-in pops arity(b) raw values first (Python order) and only then looks at them: on a shorter stack it raises BibTeXError(pop from empty stack) whatever the types of the values present',
+    'C03_builtin_plus': 'a b + pushes a+b; fewer than two values -> BibTeXError(pop from empty stack) whatever they are; a non-integer operand -> TypeError (internal), never a default',
+    'C03_builtin_minus': 'a b - pushes a-b (negative results kept); fewer than two values -> BibTeXError whatever they are; with two values present a non-integer -> TypeError',
+    'C03_builtin_concat': 'x y * pushes the concatenation; a missing field is the empty string; fewer than two values -> BibTeXError whatever they are; ill-typed operands -> TypeError',
     'C03_builtin_plus_mul_same': 'observation on the pinned code: + and * are the same Python operator',
-    'C03_builtin_gt_lt': 'a b > / a b < push 1 or 0 for a>b / a<b on integers (argument order pinned); short stack / ill-typed operands are errors',
+    'C03_builtin_gt_lt': 'a b > / a b < push 1 or 0 for a>b / a<b on integers (argument order pinned); fewer than two values -> BibTeXError whatever they are; mixed or non-comparable operands -> TypeError',
     'C03_builtin_gt_lt_str': '< and > on strings compare by code-point lexicographic order',
-    'C03_builtin_eq': 'a b = pushes 1/0 for equal integers or equal strings (missing = ""); integer vs string is 0; function values are outside the domain',
+    'C03_builtin_eq': 'a b = pushes 1/0 for equal integers or equal strings (missing = ""); integer vs string is 0; like Python == it accepts any two values: function values by their bodies (structural), an object never equals an integer/string, variable objects by their __eq__; fewer than two values -> BibTeXError',
+    'C03_builtin_eq_objects': '== on two variable objects: global variables by value, functions by body, a field / crossref / built-in only with itself, two entry variables of one class raise AttributeError (no _value attribute), different classes unequal',
     'C03_builtin_assign_global_int': "v 'name := on a global integer variable stores v and changes nothing else; wrong type -> ValueError",
     'C03_builtin_assign_global_str': "v 'name := on a global string variable stores v (a missing field as such); wrong type -> ValueError",
     'C03_builtin_assign_entry_int': "v 'name := on an entry integer variable writes the frame of the current entry only",
     'C03_builtin_assign_entry_str': "v 'name := on an entry string variable (sort.key$, label ...) writes the frame of the current entry only",
-    'C03_builtin_assign_errors': ':= with a short stack, a non-variable operand or a function/field/built-in target is an error, never an assignment',
-    'C03_builtin_stack_ops': 'duplicate$ pop$ swap$ skip$ quote$ do what their names say for values of any type; short stacks are BibTeXErrors',
-    'C03_builtin_empty': 'empty$ pushes 1 iff the string is missing, empty or white space only',
+    'C03_builtin_assign_errors': ':= with fewer than two values is a BibTeXError whatever they are; a non-variable top operand or a function/field/built-in target is an AttributeError, never an assignment',
+    'C03_builtin_stack_ops': 'duplicate$ pop$ swap$ skip$ quote$ do what their names say for values of any type; too short stacks are BibTeXErrors whatever the values',
+    'C03_builtin_empty': 'empty$ pushes 1 iff the string is missing, empty or white space only; ill-typed: the integer 0 is falsy and gives 1, every other non-string is an AttributeError',
     'C03_builtin_missing': 'missing$ pushes 1 exactly for a missing-field value, 0 for every other value',
-    'C03_builtin_chr_to_int': 'chr.to.int$ pushes the code point of a one-character string; any other length is a BibTeXError',
-    'C03_builtin_int_to_chr': 'int.to.chr$ pushes chr(n) for 0 <= n < 0x110000, BibTeXError outside',
-    'C03_builtin_int_to_str': 'int.to.str$ pushes the decimal representation',
+    'C03_builtin_chr_to_int': 'chr.to.int$ pushes the code point of a one-character string; ANYTHING else (other length, missing field, integer, function, variable) is a BibTeXError (Python catches the TypeError of ord)',
+    'C03_builtin_int_to_chr': 'int.to.chr$ pushes chr(n) for 0 <= n < 0x110000, BibTeXError outside while n fits a C int, OverflowError (internal) beyond; a non-integer is a TypeError',
+    'C03_builtin_int_to_str': 'int.to.str$ pushes the decimal representation; str() of a function/variable object (its repr) is not modelled (internal, marked unmodelled)',
     'C03_builtin_cite_type_preamble': 'cite$ pushes the current key as spelled in the citation list, type$ the entry type, preamble$ the concatenated preamble',
     'C03_builtin_write': 'write$ appends its operand to the output buffer and emits nothing',
     'C03_builtin_newline': 'newline$ emits wrap(buffer) and "\\n" and clears the buffer; the stack is untouched',
-    'C03_builtin_warning_top_stack': 'warning$ reports its operand; top$ pops and prints one value; stack$ prints and empties the whole stack top first',
-    'C03_builtin_substring': 's start len substring$ pushes the documented substring (Spec.substring via C12_substring_spec) for all integers; operand order and error cases pinned',
+    'C03_builtin_warning_top_stack': 'warning$ reports its operand (an integer as its decimal text; repr of an object unmodelled); top$ pops and prints one value of ANY type; stack$ prints and empties the whole stack top first (object print-outs abstracted to the tag <object>)',
+    'C03_builtin_substring': 's start len substring$ pushes the documented substring (Spec.substring via C12_substring_spec) for all integers; fewer than three values -> BibTeXError whatever they are; non-integer start -> TypeError; start 0 -> "" whatever the other operands; else non-integer len / non-string s -> TypeError',
     'C03_builtin_text_length': 'text.length$ pushes bibtexLen (C12) or raises the nesting error',
     'C03_builtin_text_length_spec': 'with C12_len_spec: text.length$ pushes the reference text length (braces not counted, special character once)',
-    'C03_builtin_text_prefix': 's n text.prefix$ pushes bibtexPrefix s n (C12)',
+    'C03_builtin_text_prefix': 's n text.prefix$ pushes bibtexPrefix s n (C12); fewer than two values -> BibTeXError whatever they are; non-integer n -> TypeError; n <= 0 -> "" whatever s; n > 0 and non-string s -> TypeError',
     'C03_builtin_text_prefix_spec': 'with C12_prefix_len / C12_prefix_nonpos: the pushed prefix has text length min(n, len) for n >= 0 and is empty for n <= 0',
     'C03_builtin_purify_width_num_names': 'purify$ / width$ / num.names$ push bibtexPurify / bibtexWidth over the regenerated table / the number of " and "-separated names',
     'C03_builtin_purify_spec': 'with C12: a purified string consists of letters, digits and blanks and purify$ is idempotent on it',
-    'C03_builtin_change_case': 'change.case$ selects the conversion by the lower-cased first character of the mode (t, l, u); empty mode / other letter are BibTeXErrors',
+    'C03_builtin_change_case': 'change.case$ selects the conversion by the lower-cased first character of the mode (t, l, u); empty mode (also the integer 0) / other letter are BibTeXErrors raised before the string is used; other integers / objects as mode and a non-string s under a valid mode are TypeErrors; fewer than two values -> BibTeXError',
     'C03_builtin_change_case_spec': 'with C12_case_letters: change.case$ changes nothing but the case of letters (closed special characters)',
-    'C03_builtin_add_period': 'add.period$ appends "." unless the string is empty or its last non-"}" character is . ? ! (three shapes covering every string); a missing field stays missing',
-    'C03_builtin_format_name': 'names n fmt format.name$ formats the n-th name with formatName (C11); n outside 1..count warns and pushes ""; malformed format is a syntax error',
+    'C03_builtin_add_period': 'add.period$ appends "." unless the string is empty or its last non-"}" character is . ? ! (three shapes covering every string); a missing field stays missing; ill-typed: the integer 0 is pushed back, every other non-string is an AttributeError',
+    'C03_builtin_format_name': 'names n fmt format.name$ formats the n-th name with formatName (C11); n outside 1..count warns and pushes "" (for n < 1 before names and fmt are used: integer names in decimal, repr of an object unmodelled; beyond the count the format is unused); malformed format is a syntax error; non-integer n, non-string names (n >= 1) or format (n in range) are TypeErrors; fewer than three values -> BibTeXError',
     'C03_builtin_format_name_spec': 'with C11_matches_spec: the pushed string is the outcome of the reference rule Spec.formatName',
     'C03_builtin_newline_short': 'with C19_short_identity: a buffered text of at most 79 characters is emitted as one right-stripped line',
     'C03_builtin_call_type': 'call.type$ executes the function named like the entry type; undefined type: warning text pinned, then default.type if defined, else nothing',
     'C03_builtin_table': 'summary: whenever the documented table Doc (Spec/BstSem.lean) of the stack-only built-ins says b turns operands args into res, a call on a stack starting with args replaces them by res and changes nothing else',
-    'C03_if': 'p f2 f1 if$ executes f2 if p > 0 else f1 on the stack below the three operands; short / ill-typed stacks are errors',
-    'C03_while_unfold': 'while$ = execute p; pop n; n <= 0 stop, else execute f and repeat: one-step equation with fuel and the fuel-free unfolding law',
+    'C03_if': 'p f2 f1 if$ executes f2 if p > 0 else f1 on the stack below the three operands (only the chosen operand is executed); fewer than three values -> BibTeXError whatever they are; non-integer p / non-executable chosen operand -> internal',
+    'C03_while_unfold': 'while$ = execute p; pop n; n <= 0 stop, else execute f and repeat: one-step equation with fuel and the fuel-free unfolding law; fewer than two values -> BibTeXError whatever they are',
     'C03_fuel_mono': 'a finished run (state or non-fuel error) is unchanged by more fuel, for all six mutually recursive functions',
     'C03_deterministic': 'two finished runs of the same code from the same state agree, whatever the fuel',
     'C03_exec_literals': 'literals push themselves, { } pushes the function, \'name pushes the variable (undefined -> BibTeXError), a name is executed (undefined -> BibTeXError); bodies run left to right',
@@ -77,12 +79,18 @@ THEOREMS = {
 RULE = ('well-typed straight-line programs: every sequence of up to the tier length of typed units (literals from the operand pool, '
         'fields incl. a missing one, every built-in with its operand shapes, global and entry variables) that type-checks from the empty '
         'stack, executed per entry by ITERATE and followed by a typed dump of the stack; seeded random structured programs (nested function '
-        'literals, if$, counter-bounded while$, SORT / REVERSE, MACRO, call.type$); the golden (bib, bst) pairs of tests/data as corpus; '
+        'literals, if$, counter-bounded while$, SORT / REVERSE, MACRO, call.type$); ill-typed programs: every built-in on every stack of '
+        'depth 0..3 over one operand of each kind (integers 0/1/2, string, missing field, quoted variable, function literal) and of depth '
+        '1..2 over every kind of variable object, followed by stack$ newline$ (engine and semantics must agree on ok + same output / '
+        'BibTeXError / non-pybtex exception); the golden (bib, bst) pairs of tests/data as corpus; '
         'non-trivial = program with at least one built-in; distinct by program text')
 TRUSTED = ['a value pushed by \'name is modelled as a reference by name (differs from the code only when a variable is re-declared while '
            'such a reference is on the stack; never generated)',
+           'what top$ / stack$ print for a function or variable object (its Python repr, which may contain a memory address) is abstracted '
+           'to the tag <object> on both sides of the comparison',
            'the .bst text is parsed by the C15 model, the .bib text by the C01 model with person_fields=[] and the MACRO table']
-ASSUMPTIONS = ['programs are well typed (Python raises TypeError/AttributeError where BibTeX prints a message: outside the domain)',
+ASSUMPTIONS = ['the output is pinned for well-typed programs (Python raises TypeError/AttributeError where BibTeX prints a message); on ill-typed '
+               'operands the model follows the pinned Python code: same error class, and the same ordinary result where Python has one',
                'while$ loops are counter bounded; no non-ASCII letters']
 
 BIB = '''@article{Knuth84, author = {Donald E. Knuth and Leslie Lamport}, title = {The {\\TeX}book: a Guide}, year = 1984, note = "x."}
@@ -534,17 +542,31 @@ def gen_cases(tier, rng, info):
 
 LEVEL_TEXT = ('Machine-checked proof (Lean 4) about an executable model of the BST interpreter (pybtex/bibtex/interpreter.py + builtins.py) for EVERY '
               'state, stack content and program: one theorem per built-in (all 37) giving the exact stack / output / state change on the documented '
-              'operand shapes with frame conditions, BibTeXError on too short stacks and an (out-of-domain) TypeError on ill-typed operands, never a '
-              'default; if$ and the unfolding law of while$; fuel monotonicity and determinism of the six mutually recursive execution functions; '
+              'operand shapes with frame conditions; BibTeXError(pop from empty stack) on every stack shorter than the number of values the built-in '
+              'pops, whatever their types (the model pops raw values in Python\'s order and inspects them afterwards); on ill-typed operands what the '
+              'pinned Python code does (TypeError/AttributeError = internal error, or the ordinary result Python computes), never a silent default; '
+              'if$ and the unfolding law of while$; fuel monotonicity and determinism of the six mutually recursive execution functions; '
               'ITERATE / REVERSE as the left fold over the citation list in order / in reverse; SORT = the unique stable sort by sort.key$ under '
               'code-point lexicographic order; scoping (entry variables of other entries untouched, global variables persist, functions never '
               'redefined by execution); ENTRY / INTEGERS / STRINGS / FUNCTION / MACRO declare exactly what they list; the .bbl text is the rendering of '
               'the run\'s write$/newline$ events. The string built-ins are tied to the theorems of C12 (substring$, text.length$, text.prefix$, purify$, '
               'change.case$), C11 (format.name$) and C19 (newline$). The model is tied to the code by a correspondence check that is exhaustive over '
-              'well-typed straight-line programs of 90 typed units up to the tier length, plus seeded random structured programs and the golden styles.')
+              'well-typed straight-line programs of 90 typed units up to the tier length and over every built-in on every ill-typed stack of depth '
+              '0..3 over one operand of each kind, plus seeded random structured programs and the golden styles.')
 LEVEL_NOTE = ('Trusted: Lean kernel; axioms propext/Classical.choice/Quot.sound only; the hand-written model (Model/Interp.lean) corresponds to the '
-              'Python code only as far as the differential check explores; a value pushed by \'name is a reference by name; ill-typed programs '
-              '(Python TypeError/AttributeError where BibTeX prints a message) are outside the domain and the model only promises an internal error '
-              'there (for a stack that is both too short and ill-typed the model may report the type error where Python reports the empty stack). '
-              'Observations, not violations of the property as stated: the pinned code implements + and * by one Python operator (C03_builtin_plus_mul_same) '
-              'and INTEGERS / STRINGS silently overwrite an existing binding (C03_declare_globals).')
+              'Python code only as far as the differential check explores; a value pushed by \'name is a reference by name; the print-out of a '
+              'function / variable object by top$ / stack$ is the tag <object>. Ill-typed operands where Python\'s behaviour is an ORDINARY RESULT '
+              'and the model follows it: = on any two values (functions by body, variable objects by their __eq__; two entry variables of one class '
+              'raise AttributeError); + and * are one operator (two strings concatenate, two integers add, under either name); < and > on two '
+              'strings; add.period$ on the integer 0 (pushed back) and empty$ on 0 (gives 1); change.case$ with mode 0 ("empty mode" BibTeXError); '
+              'chr.to.int$ on anything but a one-character string (BibTeXError, also for integers and objects); missing$ / duplicate$ / pop$ / swap$ / '
+              'top$ / stack$ on any value; int.to.str$ on a string (unchanged); warning$ on an integer (decimal text); substring$ with start 0 ("" '
+              'whatever the other operands) and text.prefix$ with a count <= 0 ("" whatever the string); format.name$ with a name number < 1 (warning '
+              'before names and format are used; integer names in decimal) or beyond the count (format unused); if$ never looks at the operand it '
+              'does not execute. OUT OF DOMAIN, kept as an internal error marked "unmodelled:" although Python gives an ordinary result (it involves '
+              'the repr of an object, or the failure is deferred): int.to.str$ and warning$ on a function / variable object, the format.name$ warning '
+              '(name number < 1) when names is such an object, and write$ of a non-string (Python appends it and fails with TypeError at the next '
+              'newline$, or never if none follows); int.to.chr$ of an integer outside the C int range is an OverflowError (internal), not the '
+              'BibTeXError of the other out-of-range integers. Observations, not violations of the property as stated: the pinned code implements + '
+              'and * by one Python operator (C03_builtin_plus_mul_same) and INTEGERS / STRINGS silently overwrite an existing binding '
+              '(C03_declare_globals).')
